@@ -1030,6 +1030,339 @@ Proof.
   - rewrite orb_true_iff, andb_true_iff, !IH, mem_In. tauto.
 Qed.
 
+(* ---- labels_per_values is the leader map ---------------------------------------------------- *)
+
+Definition nan_last (ks : list val) : Prop :=
+  ~ In nan_s ks \/ exists a, ks = a ++ [nan_s] /\ ~ In nan_s a.
+
+Lemma filter_all : forall (p : val -> bool) l, (forall x, In x l -> p x = true) -> filter p l = l.
+Proof.
+  intros p l. induction l as [|a t IH]; intro H; [reflexivity|]. cbn [filter].
+  rewrite (H a (or_introl eq_refl)). f_equal. apply IH. intros x Hx. apply H. right; exact Hx.
+Qed.
+
+Lemma not_nan_filter : forall l, ~ In nan_s l -> filter (fun k => negb (py_eq k nan_s)) l = l.
+Proof.
+  intros l H. apply filter_all. intros x Hx. apply negb_true_iff.
+  destruct (py_eq x nan_s) eqn:E; [|reflexivity]. apply py_eq_true in E. subst. tauto.
+Qed.
+
+Lemma labels_aligned : forall ks, nan_last ks ->
+  filter (fun k => negb (py_eq k nan_s)) ks ++ (if mem nan_s ks then [nan_s] else []) = ks.
+Proof.
+  intros ks [H|(a & -> & Ha)].
+  - rewrite (not_nan_filter ks H). replace (mem nan_s ks) with false by (symmetry; apply mem_false; exact H).
+    apply app_nil_r.
+  - rewrite filter_app, (not_nan_filter a Ha). cbn [filter]. 
+    replace (py_eq nan_s nan_s) with true by reflexivity. cbn [negb]. rewrite app_nil_r.
+    replace (mem nan_s (a ++ [nan_s])) with true; [reflexivity|].
+    symmetry. apply mem_In. apply in_or_app. right. left. reflexivity.
+Qed.
+
+Lemma nan_last_filter : forall (p : val -> bool) ks, nan_last ks -> nan_last (filter p ks).
+Proof.
+  intros p ks [H|(a & -> & Ha)].
+  - left. intro Hi. apply filter_In in Hi. tauto.
+  - rewrite filter_app. cbn [filter]. destruct (p nan_s).
+    + right. exists (filter p a). split; [reflexivity|]. intro Hi. apply filter_In in Hi. tauto.
+    + left. rewrite app_nil_r. intro Hi. apply filter_In in Hi. tauto.
+Qed.
+
+Lemma aget_aset_same : forall k v m, aget k (aset k v m) = Some v.
+Proof.
+  intros k v m. induction m as [|[k' v'] t IH]; cbn [aset aget].
+  - rewrite val_eqb_refl. reflexivity.
+  - destruct (val_eqb k k') eqn:E; cbn [aget]; rewrite E; [reflexivity | exact IH].
+Qed.
+
+Lemma aget_aset_other : forall k k' v m, k' <> k -> aget k' (aset k v m) = aget k' m.
+Proof.
+  intros k k' v m Hn. induction m as [|[k2 v2] t IH]; cbn [aset aget].
+  - replace (val_eqb k' k) with false by (symmetry; apply val_eqb_neq; exact Hn). reflexivity.
+  - destruct (val_eqb k k2) eqn:E; cbn [aget].
+    + apply val_eqb_eq in E. subst k2.
+      replace (val_eqb k' k) with false by (symmetry; apply val_eqb_neq; exact Hn). reflexivity.
+    + destruct (val_eqb k' k2); [reflexivity | exact IH].
+Qed.
+
+Lemma aget_None_notin : forall x (ps : vmap), ~ In x (map fst ps) -> aget x ps = None.
+Proof.
+  intros x ps. induction ps as [|[k v] t IH]; intro H; [reflexivity|]. cbn [aget].
+  cbn [map fst In] in H. replace (val_eqb x k) with false.
+  - apply IH. tauto.
+  - symmetry. apply val_eqb_neq. intro; subst; tauto.
+Qed.
+
+Lemma aget_fold : forall (ps : vmap) m0 x, NoDup (map fst ps) ->
+  aget x (fold_left (fun m p => aset (fst p) (snd p) m) ps m0) =
+  match aget x ps with Some l => Some l | None => aget x m0 end.
+Proof.
+  induction ps as [|[k v] t IH]; intros m0 x Hnd; [reflexivity|].
+  cbn [fold_left fst snd]. cbn [map fst] in Hnd. inversion Hnd as [|? ? Hk Hnd']; subst.
+  rewrite (IH _ x Hnd'). cbn [aget]. destruct (val_eqb x k) eqn:E.
+  - apply val_eqb_eq in E. subst. rewrite (aget_None_notin k t Hk). apply aget_aset_same.
+  - apply val_eqb_neq in E. rewrite (aget_aset_other k x v m0 E). reflexivity.
+Qed.
+
+Lemma inner_fold : forall k vs (m : vmap),
+  fold_left (fun m' v => aset v k m') vs m =
+  fold_left (fun m p => aset (fst p) (snd p) m) (map (fun v => (v, k)) vs) m.
+Proof. intros k vs. induction vs as [|v t IH]; intro m; [reflexivity|]. cbn [fold_left map fst snd]. apply IH. Qed.
+
+Lemma lpv_fold : forall g ks (m0 : vmap),
+  fold_left (fun m kl => fold_left (fun m' v => aset v (snd kl) m') (get g (fst kl)) m) (combine ks ks) m0 =
+  fold_left (fun m p => aset (fst p) (snd p) m)
+            (flat_map (fun kv => map (fun v => (v, fst kv)) (snd kv)) (map (fun k => (k, get g k)) ks)) m0.
+Proof.
+  intros g ks. induction ks as [|k t IH]; intro m0; [reflexivity|].
+  cbn [combine fold_left map flat_map fst snd]. rewrite fold_left_app, <- inner_fold. apply IH.
+Qed.
+
+Lemma map_fst_pairs : forall (c : dict),
+  map fst (flat_map (fun kv => map (fun v => (v, fst kv)) (snd kv)) c) = dvalues c.
+Proof.
+  induction c as [|[k vs] t IH]; [reflexivity|]. cbn [flat_map fst snd]. unfold dvalues in *. cbn [flat_map snd].
+  rewrite map_app, IH, map_map. cbn [fst]. rewrite map_id. reflexivity.
+Qed.
+
+Theorem lpv_spec : forall g, WF g -> nan_last (keys g) ->
+  forall x, aget x (labels_per_values g) = if mem x (values g) then Some (get_group g x) else None.
+Proof.
+  intros g Hwf Hnl x. unfold labels_per_values. rewrite (labels_aligned (keys g) Hnl).
+  rewrite lpv_fold. fold (abs g).
+  assert (Hperm : Permutation (dvalues (abs g)) (values g)).
+  { apply Permutation_sym. unfold abs. rewrite dvalues_map. apply values_flat_map_get; exact Hwf. }
+  rewrite aget_fold.
+  2:{ rewrite map_fst_pairs. apply (Permutation_NoDup (Permutation_sym Hperm)). apply Hwf. }
+  cbn [aget].
+  change (flat_map (fun kv => map (fun v => (v, fst kv)) (snd kv)) (abs g))
+    with (content_map (mkGL (keys g) (abs g))).
+  destruct (mem x (values g)) eqn:Em.
+  - apply mem_In in Em.
+    assert (Hx : In x (values (mkGL (keys g) (abs g)))).
+    { unfold values; cbn [content]. apply (Permutation_in _ (Permutation_sym Hperm)). exact Em. }
+    rewrite (aget_content_map_in _ x Hx). f_equal.
+    unfold get_group at 1.
+    destruct (found_groups (mkGL (keys g) (abs g)) x) as [|k t] eqn:E.
+    + exfalso. apply In_dvalues in Hx. cbn [content] in Hx. destruct Hx as (k & vs & Hi & Hv).
+      assert (Hin : In k (found_groups (mkGL (keys g) (abs g)) x)).
+      { unfold found_groups. apply in_map_iff. exists (k, vs). split; [reflexivity|]. cbn [content].
+        apply filter_In. split; [exact Hi|]. cbn [snd]. rewrite existsb_is_equal. apply mem_In; exact Hv. }
+      rewrite E in Hin. destruct Hin.
+    + assert (Hin : In k (found_groups (mkGL (keys g) (abs g)) x)) by (rewrite E; left; reflexivity).
+      unfold found_groups in Hin. cbn [content] in Hin. apply in_map_iff in Hin.
+      destruct Hin as ([k' vs] & Hk & Hf). cbn [fst] in Hk. subst k'.
+      apply filter_In in Hf. destruct Hf as [Hi Hm]. cbn [snd] in Hm. rewrite existsb_is_equal in Hm.
+      symmetry. apply (get_group_abs g k vs x Hwf Hi). apply mem_In; exact Hm.
+  - apply mem_false in Em. rewrite aget_content_map_notin; [reflexivity|].
+    unfold values; cbn [content]. intro Hi. apply Em. apply (Permutation_in _ Hperm). exact Hi.
+Qed.
+
+(* ---- str_nan stays the last key all along fit ------------------------------------------------- *)
+
+Lemma group_keys_exact : forall g d k g', WF g -> d <> k -> group g d k = Ok g' ->
+  keys g' = filter (fun x => negb (val_eqb d x)) (keys g).
+Proof.
+  intros g d k g' Hwf Hdk Hg.
+  assert (Hd : In d (keys g) /\ In k (keys g)).
+  { unfold group in Hg. unfold is_equal in Hg.
+    assert (E : val_eqb d k = false) by (apply val_eqb_neq; exact Hdk). rewrite E in Hg.
+    destruct (mem d (keys g)) eqn:E1; cbn [negb] in Hg; [|discriminate].
+    destruct (mem k (keys g)) eqn:E2; cbn [negb] in Hg; [|discriminate].
+    split; apply mem_In; assumption. }
+  destruct Hd as [Hd Hk].
+  destruct (group_spec g d k Hwf Hdk Hd Hk) as (g'' & Hg'' & _ & Hkeys & _).
+  rewrite Hg in Hg''. injection Hg'' as <-. exact Hkeys.
+Qed.
+
+Lemma group_keys : forall g d k g', WF g -> group g d k = Ok g' ->
+  nan_last (keys g) -> nan_last (keys g').
+Proof.
+  intros g d k g' Hwf Hg Hn. destruct (val_eq_dec d k) as [->|Hdk].
+  - unfold group in Hg. unfold is_equal in Hg. rewrite val_eqb_refl in Hg. injection Hg as <-. exact Hn.
+  - rewrite (group_keys_exact g d k g' Hwf Hdk Hg). apply nan_last_filter. exact Hn.
+Qed.
+
+Lemma group_pairs_keys : forall ps g g', WF g -> group_pairs g ps = Ok g' ->
+  WF g' /\ (nan_last (keys g) -> nan_last (keys g')).
+Proof.
+  induction ps as [|[d k] t IH]; intros g g' Hwf Hg; cbn [group_pairs] in Hg.
+  - injection Hg as <-. split; auto.
+  - destruct (group g d k) as [g1| |] eqn:E1; cbn [bind] in Hg; try discriminate.
+    destruct (group_leader g d k g1 Hwf E1) as (Hwf1 & _).
+    destruct (IH g1 g' Hwf1 Hg) as (Hwf' & Hn').
+    split; [exact Hwf'|]. intro Hn. apply Hn'. apply (group_keys g d k g1 Hwf E1 Hn).
+Qed.
+
+Lemma fit_levels_keys : forall mf n lvs col g col' g', WF g ->
+  fit_levels mf n lvs col g = Ok (col', g') -> nan_last (keys g) -> nan_last (keys g').
+Proof.
+  intros mf n lvs. induction lvs as [|lv t IH]; intros col g col' g' Hwf Hf Hn; cbn [fit_levels] in Hf.
+  - injection Hf as <- <-. exact Hn.
+  - destruct (level_step mf n lv col g) as [[c1 g1]| |] eqn:E; cbn [bind fst snd] in Hf; try discriminate.
+    unfold level_step in E.
+    destruct (group_pairs g _) as [g1'| |] eqn:E1; cbn [bind] in E; try discriminate.
+    injection E as <- <-.
+    destruct (group_pairs_keys _ g g1' Hwf E1) as (Hwf1 & Hn1).
+    apply (IH _ g1' col' g' Hwf1 Hf (Hn1 Hn)).
+Qed.
+
+Lemma add_unknown_keys : forall known (U : val -> Prop) g u g', Prep known U g ->
+  ~ In u known -> u <> nan_s -> ~ U u ->
+  add_unknown g u = Ok g' -> nan_last (keys g) -> nan_last (keys g').
+Proof.
+  intros known U g u g' HP Hnk Hnn HnU H Hn.
+  pose proof HP as (P1 & P2 & P3 & P4 & P5).
+  assert (Hu : ~ In u (values g)).
+  { intro Hi. destruct (P3 u Hi) as [Hk|[Hk|Hk]]; tauto. }
+  assert (Huk : ~ In u (keys g)) by (intro Hi; apply Hu; apply key_in_values; assumption).
+  destruct (append_leader g u P1 Hu) as (A1 & A2 & A3 & A4).
+  assert (Hk1 : In nan_s (values (append g u)) -> In nan_s (keys (append g u))).
+  { intro Hi. apply A3 in Hi. destruct Hi as [Hi|Hi]; [|exfalso; apply Hnn; symmetry; exact Hi].
+    rewrite A4. apply in_or_app. left. eapply Prep_nan_key; eassumption. }
+  destruct (with_nan (append g u) A1 Hk1) as (W1 & W2 & W3 & W4).
+  unfold add_unknown in H.
+  set (g2 := if mem nan_s (keys (append g u)) then append g u else append (append g u) nan_s) in *.
+  rewrite (group_keys_exact g2 u nan_s g' W1 Hnn H).
+  assert (Fu : filter (fun x => negb (val_eqb u x)) (keys g ++ [u]) = keys g).
+  { rewrite filter_app, (filter_neq_notin u (keys g) Huk). cbn [filter]. rewrite val_eqb_refl. cbn [negb].
+    apply app_nil_r. }
+  unfold g2. destruct (mem nan_s (keys (append g u))) eqn:Em.
+  - rewrite A4, Fu. exact Hn.
+  - apply mem_false in Em. rewrite A4 in Em.
+    destruct (append_leader (append g u) nan_s A1 (fun Hi => Em (eq_ind _ (fun l => In nan_s l) (Hk1 Hi) _ A4)))
+      as (_ & _ & _ & B4).
+    rewrite B4, A4, filter_app, Fu. cbn [filter].
+    replace (val_eqb u nan_s) with false by (symmetry; apply val_eqb_neq; exact Hnn). cbn [negb].
+    right. exists (keys g). split; [reflexivity|]. intro Hi. apply Em. apply in_or_app. left; exact Hi.
+Qed.
+
+Lemma drop_unknown_keys : forall known us (U : val -> Prop) g g', Prep known U g ->
+  ~ In nan_s known -> NoDup us ->
+  (forall u, In u us -> ~ In u known /\ u <> nan_s /\ ~ U u) ->
+  drop_unknown g us = Ok g' -> nan_last (keys g) -> nan_last (keys g').
+Proof.
+  intros known us. induction us as [|u t IH]; intros U g g' HP Hnank Hnd Hus H Hn; cbn [drop_unknown] in H.
+  - injection H as <-. exact Hn.
+  - destruct (add_unknown g u) as [g1| |] eqn:E1; cbn [bind] in H; try discriminate.
+    destruct (Hus u (or_introl eq_refl)) as (H1 & H2 & H3).
+    pose proof (add_unknown_Prep known U g u g1 HP H1 H2 H3 Hnank E1) as HP1.
+    pose proof (add_unknown_keys known U g u g1 HP H1 H2 H3 E1 Hn) as Hn1.
+    inversion Hnd as [|? ? Hnu Hnd']; subst.
+    assert (Hus' : forall w, In w t -> ~ In w known /\ w <> nan_s /\ ~ (w = u \/ U w)).
+    { intros w Hw. destruct (Hus w (or_intror Hw)) as (K1 & K2 & K3). split; [exact K1|]. split; [exact K2|].
+      intros [->|Hc]; tauto. }
+    apply (IH _ g1 g' HP1 Hnank Hnd' Hus' H Hn1).
+Qed.
+
+Lemma prepare_keys : forall c drop filled g,
+  WF (c_order c) -> (forall v, In v (values (c_order c)) <-> In v (c_known c)) ->
+  (forall v, get_group (c_order c) v = v) -> ~ In nan_s (c_known c) ->
+  prepare c drop filled = Ok g -> nan_last (keys g).
+Proof.
+  intros c drop filled g Wo Vo Lo Hnank H. unfold prepare in H.
+  set (known := c_known c) in *. set (us := unknown_values known filled) in *.
+  assert (HP0 : Prep known (fun _ => False) (c_order c)).
+  { split; [exact Wo|]. split; [|split; [|split]].
+    - intros v Hv. split; [apply Vo; exact Hv | apply Lo].
+    - intros v Hv. left. apply Vo; exact Hv.
+    - intros u [].
+    - intros _. apply Lo. }
+  assert (Hn0 : nan_last (keys (c_order c))).
+  { left. intro Hi. apply Hnank. apply Vo. apply key_in_values; assumption. }
+  assert (Hg1 : exists g1 (U : val -> Prop),
+             match us with [] => Ok (c_order c) | _ :: _ => if drop then drop_unknown (c_order c) us else AssertErr end = Ok g1
+             /\ Prep known U g1 /\ nan_last (keys g1)).
+  { destruct us as [|u0 ut] eqn:Eus.
+    - exists (c_order c), (fun _ => False). split; [reflexivity|]. split; assumption.
+    - destruct drop; [|cbn [bind] in H; discriminate].
+      destruct (drop_unknown (c_order c) (u0 :: ut)) as [g1| |] eqn:E1; cbn [bind] in H; try discriminate.
+      exists g1, (fun x => In x (u0 :: ut) \/ False). split; [reflexivity|].
+      assert (Hnd : NoDup (u0 :: ut)).
+      { rewrite <- Eus. unfold us, unknown_values. apply NoDup_filter. apply NoDup_uniq. }
+      assert (Hus : forall u, In u (u0 :: ut) -> ~ In u known /\ u <> nan_s /\ ~ False).
+      { intros u Hu. rewrite <- Eus in Hu. apply unknown_values_spec in Hu. tauto. }
+      split.
+      + apply (drop_unknown_Prep known (u0 :: ut) (fun _ => False) _ g1 HP0 Hnank Hnd Hus E1).
+      + apply (drop_unknown_keys known (u0 :: ut) (fun _ => False) _ g1 HP0 Hnank Hnd Hus E1 Hn0). }
+  destruct Hg1 as (g1 & U & E1 & HP1 & Hn1). rewrite E1 in H. cbn [bind] in H.
+  set (g2 := if mem nan_s filled && negb (mem nan_s (keys g1)) then append g1 nan_s else g1) in *.
+  destruct (forallb (fun v => mem v (values g2)) (uniq filled)); [|discriminate].
+  injection H as <-. unfold g2.
+  destruct (mem nan_s filled); cbn [andb]; [|exact Hn1].
+  destruct (mem nan_s (keys g1)) eqn:Em; cbn [negb]; [exact Hn1|].
+  apply mem_false in Em. pose proof HP1 as (Q1 & _).
+  assert (Hnv : ~ In nan_s (values g1)) by (intro Hi; apply Em; eapply Prep_nan_key; eassumption).
+  destruct (append_leader g1 nan_s Q1 Hnv) as (_ & _ & _ & A4). rewrite A4.
+  right. exists (keys g1). split; [reflexivity | exact Em].
+Qed.
+
+Lemma init_order_facts : forall levels c, (forall d, In d levels -> NoDup (dkeys d)) ->
+  init levels = Ok c -> no_nan_levels (c_levels c) ->
+  WF (c_order c) /\ (forall v, In v (values (c_order c)) <-> In v (c_known c)) /\
+  (forall v, get_group (c_order c) v = v) /\ ~ In nan_s (c_known c).
+Proof.
+  intros levels c Hnd Ei Hnn.
+  destruct (init_spec levels c Hnd Ei) as (_ & _ & K2).
+  assert (Hnank : ~ In nan_s (c_known c)).
+  { intro Hi. destruct (K2 _ Hi) as (l & Hl & Hv). apply (proj1 (Hnn l Hl)). exact Hv. }
+  assert (HnaN : ~ In VNaN (c_known c)).
+  { intro Hi. destruct (K2 _ Hi) as (l & Hl & Hv). apply (proj2 (Hnn l Hl)). exact Hv. }
+  unfold init in Ei.
+  destruct (mapM of_dict levels) as [lvs| |] eqn:Em; cbn [bind] in Ei; try discriminate.
+  destruct (known_values lvs) as [known| |] eqn:Ek; cbn [bind] in Ei; try discriminate.
+  destruct (init_order known) as [o| |] eqn:Eo; cbn [bind] in Ei; try discriminate.
+  injection Ei as <-. cbn [c_levels c_known c_order] in *.
+  destruct (init_order_spec known o HnaN Eo) as (Wo & Vo & Lo).
+  split; [exact Wo|]. split; [exact Vo|]. split; [exact Lo | exact Hnank].
+Qed.
+
+Lemma fitted_keys : forall levels col mfd drop c g lpv, fitted levels col mfd drop c g lpv ->
+  nan_last (keys g).
+Proof.
+  intros levels col mfd drop c g lpv (Hnd & Ei & Hnn & Hfit).
+  destruct (init_order_facts levels c Hnd Ei Hnn) as (Wo & Vo & Lo & Hnank).
+  unfold fit in Hfit. rewrite Ei in Hfit. cbn [bind] in Hfit.
+  destruct (feature_dropped _ col); [discriminate|].
+  destruct (prepare c drop (fillna col)) as [gp| |] eqn:Ep; cbn [bind] in Hfit; try discriminate.
+  destruct (fit_levels _ _ (c_levels c) (fillna col) gp) as [[cf gf]| |] eqn:Ef; cbn [bind fst snd] in Hfit; try discriminate.
+  injection Hfit as <- <-.
+  pose proof (prepare_keys c drop (fillna col) gp Wo Vo Lo Hnank Ep) as Hn.
+  destruct (prepare_spec c drop (fillna col) gp Wo Vo Lo Hnank Ep) as ((P1 & _) & _).
+  apply (fit_levels_keys _ _ _ _ gp cf gf P1 Ef Hn).
+Qed.
+
+Lemma lead0_nan : forall unk, lead0 unk nan_s = nan_s.
+Proof. intro unk. unfold lead0. destruct (mem nan_s unk); reflexivity. Qed.
+
+(* transform outputs each value's group leader (str_nan shown as NaN) *)
+Theorem chained_transform_leader : forall levels col mfd drop c g lpv col' out,
+  fitted levels col mfd drop c g lpv ->
+  transform g lpv col' = Ok out ->
+  (forall r, In r (fillna col') -> In r (values g)) /\
+  out = map (fun r => if val_eqb (get_group g r) nan_s then VNaN else get_group g r) (fillna col').
+Proof.
+  intros levels col mfd drop c g lpv col' out HF Ht.
+  pose proof (fitted_keys _ _ _ _ _ _ _ HF) as Hn.
+  pose proof HF as (Hnd & Ei & Hnn & Hfit).
+  destruct (fitted_facts _ _ _ _ _ _ _ HF) as (Wg & Hlpv & _ & _ & _ & _ & HL).
+  destruct (chained_transform_lookup g lpv col' out Ht) as (Hrows & ->).
+  split; [exact Hrows|]. subst lpv. apply map_ext_in. intros r Hr. cbn zeta.
+  assert (Hr1 : aget r (labels_per_values g) = Some (get_group g r)).
+  { rewrite (lpv_spec g Wg Hn r). replace (mem r (values g)) with true; [reflexivity|].
+    symmetry. apply mem_In. apply Hrows. exact Hr. }
+  assert (E : get_group g nan_s = nan_s).
+  { rewrite HL, lead_fix; [apply lead0_nan|].
+    intros l Hl. rewrite lead0_nan. apply (Hnn l Hl). }
+  assert (Hn1 : aget nan_s (labels_per_values g) = if mem nan_s (values g) then Some nan_s else None).
+  { rewrite (lpv_spec g Wg Hn nan_s), E. reflexivity. }
+  rewrite Hr1, Hn1. destruct (mem nan_s (values g)) eqn:Em; [reflexivity|].
+  apply mem_false in Em.
+  replace (val_eqb (get_group g r) nan_s) with false; [reflexivity|].
+  symmetry. apply val_eqb_neq. intro E'. apply Em. rewrite <- E'.
+  apply get_group_values; [exact Wg | apply Hrows, Hr].
+Qed.
+
 (* ---- a concrete instance (non-vacuity) ---------------------------------------------------------- *)
 Local Open Scope string_scope.
 Definition ex_levels : list dict :=
